@@ -219,27 +219,46 @@ impl Request {
     }
 
     #[cfg(feature="__rt_native__")]
+    /// `clear`, keeping the bytes of the buffer that follow the request
+    /// just handled ( the range returned by `read_following` ): they are
+    /// the beginning of the next request and are moved to the front.
+    /// Returns their number.
+    pub(crate) fn clear_keeping(&mut self, unread: std::ops::Range<usize>) -> usize {
+        if unread.is_empty() {
+            self.clear();
+            0
+        } else {
+            let unread = self.__buf__[unread].to_vec();
+            self.clear();
+            self.__buf__[..unread.len()].copy_from_slice(&unread);
+            unread.len()
+        }
+    }
+
+    #[cfg(feature="__rt_native__")]
     #[inline]
     pub(crate) async fn read(
+        self:   Pin<&mut Self>,
+        stream: &mut (impl AsyncRead + Unpin),
+    ) -> Result<Option<()>, crate::Response> {
+        self.read_following(stream, 0).await.map(|read| read.map(|_| ()))
+    }
+
+    #[cfg(feature="__rt_native__")]
+    /// `read`, for a request whose first `carried` bytes have already arrived
+    /// together with the previous request of the connection and lie at
+    /// the beginning of the buffer ( see `clear_keeping` ).
+    /// 
+    /// Returns the range of the buffer holding what follows this request.
+    pub(crate) async fn read_following(
         mut self: Pin<&mut Self>,
         stream:   &mut (impl AsyncRead + Unpin),
-    ) -> Result<Option<()>, crate::Response> {
+        carried:  usize,
+    ) -> Result<Option<std::ops::Range<usize>>, crate::Response> {
         use crate::Response;
 
-        #[cfg(ohkami_verif)] crate::__verif::emit("read-start", 0, 0);
-        let mut len = match stream.read(&mut *self.__buf__).await {
-            Ok (0) => return Ok(None),
-            Err(e) => return match e.kind() {
-                std::io::ErrorKind::ConnectionReset => Ok(None),
-                _ => Err((|err| {
-                    crate::warning!("Failed to read stream: {err}");
-                    Response::InternalServerError()
-                })(e))
-            },
-            #[cfg(ohkami_verif)]
-            Ok(n) => {crate::__verif::emit("read", n, 0); n}
-            Ok(n) => n
-        };
+        let mut len = carried;
+        #[cfg(ohkami_verif)] if carried > 0 {crate::__verif::emit("read-start", 0, 2); crate::__verif::emit("read", carried, 2);}
         /* the head may arrive in more than one segment */
         while !{
             let arrived = &self.__buf__[..len];
@@ -248,11 +267,19 @@ impl Request {
             if len == BUF_SIZE {
                 return Err(Response::RequestHeaderFieldsTooLarge())
             }
-            #[cfg(ohkami_verif)] crate::__verif::emit("read-start", len, 1);
+            #[cfg(ohkami_verif)] crate::__verif::emit("read-start", len, (len > 0) as usize);
             match stream.read(&mut self.__buf__[len..]).await {
-                Ok(0) | Err(_) => return Ok(None),
+                Ok(0) => return Ok(None),
+                Err(e) => return match e.kind() {
+                    _ if len > 0 => Ok(None),
+                    std::io::ErrorKind::ConnectionReset => Ok(None),
+                    _ => Err((|err| {
+                        crate::warning!("Failed to read stream: {err}");
+                        Response::InternalServerError()
+                    })(e))
+                },
                 #[cfg(ohkami_verif)]
-                Ok(n) => {crate::__verif::emit("read", n, 1); len += n}
+                Ok(n) => {crate::__verif::emit("read", n, (len > 0) as usize); len += n}
                 Ok(n) => len += n
             }
         }
@@ -331,21 +358,26 @@ impl Request {
             }
             None    => 0,
         };
-        match content_length {
-            0 => (),
+        /* what follows the head in the buffer: the payload, and then the next request */
+        let arrived_after_head = r.remaining().len();
+        let payload_in_buffer = match content_length {
+            0 => 0,
             PAYLOAD_LIMIT.. => return Err((|| Response::PayloadTooLarge())()),
             _ => match Request::read_payload(
                 stream,
                 r.remaining(),
                 content_length,
             ).await {
-                Ok(payload) => self.payload = Some(payload),
+                Ok(payload) => {
+                    self.payload = Some(payload);
+                    content_length.min(arrived_after_head)
+                }
                 /* the peer has gone before sending what it announced */
                 Err(_) => return Ok(None),
             }
-        }
+        };
 
-        Ok(Some(()))
+        Ok(Some((len - arrived_after_head + payload_in_buffer)..len))
     }
 
     #[cfg(feature="__rt_native__")]
